@@ -38,7 +38,9 @@ Stmts == <<
   (* 5 *) <<[t |-> "for", tag |-> "for", var |-> Y, coll |-> R12,
              body |-> <<[t |-> "if", branches |-> <<[c |-> [t |-> "cmp", op |-> "==", a |-> Var(Y), b |-> Lit(IntV(1))], body |-> <<[t |-> "break"]>>]>>],
                         T(<<33>>)>>]>>,
-  (* 6 *) <<Ob(Var(X)), T(<<124>>), Ob(Var(Y)), T(<<124>>), FLI, Ob(Var(B_forloop)), T(<<59>>)>>,
+  (* 6: the probe - also what KIND of value x is (a captured variable holds text, whatever its body was) *)
+          <<Ob(Var(X)), T(<<124>>), Ob(Var(Y)), T(<<124>>), FLI, Ob(Var(B_forloop)), T(<<35>>), Ob([t |-> "prop", e |-> Var(X), name |-> B_size]),
+            [t |-> "if", branches |-> <<[c |-> Var(X), body |-> <<T(<<116>>)>>], [c |-> [t |-> "else"], body |-> <<T(<<102>>)>>]>>], T(<<59>>)>>,
   (* 7 *) <<[t |-> "if", branches |-> <<[c |-> Var(X), body |-> <<[t |-> "assign", name |-> Y, e |-> Lit(IntV(2))]>>]>>]>>,
   (* 8 *) <<[t |-> "for", tag |-> "for", var |-> X, coll |-> R12, body |-> <<[t |-> "assign", name |-> Y, e |-> Var(X)]>>]>>,
   (* 9 *) <<[t |-> "capture", name |-> Y, body |-> <<[t |-> "for", tag |-> "for", var |-> X, coll |-> R12, body |-> <<Ob(Var(X))>>]>>]>>,
@@ -61,7 +63,9 @@ Stmts == <<
   (* 14: an included template sees the variables as they are when it is included - in every iteration of a loop anew *)
           <<[t |-> "for", tag |-> "for", var |-> X, coll |-> R12, body |-> <<[t |-> "assign", name |-> Y, e |-> Var(X)], Inc>>]>>,
   (* 15: ... and in straight-line code (with 14, or twice: several include tags of the same file in one template) *)
-          <<Inc>>
+          <<Inc>>,
+  (* 16: a capture whose body is one object and nothing else: the variable holds the TEXT the object printed *)
+          <<[t |-> "capture", name |-> X, body |-> <<Ob(Var(Y))>>]>>
 >>
 NS == Len(Stmts)
 
@@ -85,7 +89,9 @@ Decl(ix, s) ==
                    [] i = 3 -> [s EXCEPT !.x = Str(<<99>> \o Tx(s.y))]
                    [] i = 4 -> [s EXCEPT !.out = @ \o <<91, 49, 49, 93, 91, 50, 50, 93>>]
                    [] i = 5 -> s
-                   [] i = 6 -> [s EXCEPT !.out = @ \o Tx(s.x) \o <<124>> \o Tx(s.y) \o <<124>> \o Tx(s.fl) \o <<59>>]
+                   [] i = 6 -> [s EXCEPT !.out = @ \o Tx(s.x) \o <<124>> \o Tx(s.y) \o <<124>> \o Tx(s.fl) \o <<35>>
+                                                    \o (IF s.x.k = "str" THEN IntText(Len(s.x.v)) ELSE <<>>) \o (IF Truthy(s.x) THEN <<116>> ELSE <<102>>) \o <<59>>]
+                   [] i = 16 -> [s EXCEPT !.x = Str(Tx(s.y))]
                    [] i = 7 -> IF Truthy(s.x) THEN [s EXCEPT !.y = IntV(2)] ELSE s
                    [] i = 8 -> [s EXCEPT !.y = IntV(2)]
                    [] i = 9 -> [s EXCEPT !.y = Str(<<49, 50>>)]
